@@ -38,6 +38,9 @@ def run(ck):
     if not ck.build_harness() or not ck.driver():
         return
     witnesses = [k["match"]["source"].split(":", 1)[1] for k in ck.known if k.get("match", {}).get("source", "").startswith("corpus:")]
+    cdir = os.path.join(common.VERIF, "corpus", "C02")
+    if os.path.isdir(cdir):
+        witnesses += sorted(os.path.join(cdir, f) for f in os.listdir(cdir) if f.endswith(".wgsl"))
     out = ck.harness("c02", N.get(ck.tier, 300), extra_args=witnesses, timeout=7000)
     if out is None:
         return
